@@ -332,7 +332,7 @@ def ensemble_case(draw):
     ensemble_case,
     quick=60,
     thorough=1200,
-    tol="sum 1 +- 1e-4 per member and thickness; lazy == eager 1e-10 absolute",
+    tol="sum 1 +- 1e-4 per member and thickness; lazy == eager 1e-10 absolute; member == separately rotated crystal 1e-6 (float32 array)",
     rule=">=2 orientations and some beam other than (000) exceeds 1e-3",
     nontrivial_floor=0.25,
     max_shrink_calls=150,
@@ -340,6 +340,9 @@ def ensemble_case(draw):
 def check_ensemble(case, ctx):
     bw = build_bloch(case)
     rot = case["rotation"]
+    form = ",".join(f"{ax}[{'n' if len(r) > 1 else '1'}]" for ax, r in zip(rot[::2], rot[1::2]))
+    ctx.label("form " + form)
+    ctx.label(case["crystal"]["lattice"])
     args = [np.array(r, float) if isinstance(r, list) else r for r in rot]
     ens = bw.rotate(*args)
     if type(ens).__name__ != "BlochwaveEnsemble":
@@ -348,11 +351,11 @@ def check_ensemble(case, ctx):
     if tuple(ens.ensemble_shape) != exp_shape:
         raise Violation(f"ensemble shape {ens.ensemble_shape} for rotations {rot}", ("ensemble", "shape"))
     mask = np.asarray(ens.get_ensemble_hkl_mask())
-    ctx.label(case["crystal"]["lattice"])
     if int(mask.sum()) > MAX_BEAMS:
         ctx.label("skipped: too many beams")
         return
     tl = case["thicknesses"]
+    many = int(np.prod(exp_shape)) >= 2
     eager = ens.calculate_diffraction_patterns(tl, lazy=False)
     arr = np.asarray(eager.array, float)
     if arr.shape != exp_shape + (len(tl), int(mask.sum())):
@@ -360,12 +363,41 @@ def check_ensemble(case, ctx):
     hkl = np.asarray(eager.miller_indices)
     i0 = np.flatnonzero((hkl == 0).all(axis=1))
     others = np.delete(arr, i0, axis=-1)
-    ctx.nontrivial(int(np.prod(exp_shape)) >= 2 and bool(others.size and others.max() > 1e-3))
+    ctx.nontrivial(many and bool(others.size and others.max() > 1e-3))
     dev = np.abs(arr.sum(axis=-1) - 1.0)
     if not dev.max() <= 1e-4:
-        raise Violation(f"ensemble intensities sum to 1 + {dev.max():.3e} somewhere for {case}", ("ensemble", "not_one"))
-    k = [i for i, t in enumerate(tl) if t == 0.0]
+        raise Violation(
+            f"eager ensemble intensities sum to 1 + {dev.max():.3e} for some member/thickness for {case}",
+            ("ensemble", "not_one", "eager", ">=2 members" if many else "1 member"),
+        )
     lazy = np.asarray(ens.calculate_diffraction_patterns(tl, lazy=True).compute().array, float)
     if lazy.shape != arr.shape or not float(np.abs(lazy - arr).max()) <= 1e-10:
-        raise Violation(f"lazy and eager ensemble intensities differ (shapes {lazy.shape} {arr.shape}) for {case}", ("ensemble", "lazy_vs_eager"))
-    ctx.label("has t=0", bool(k))
+        raise Violation(
+            f"lazy and eager ensemble intensities differ (shapes {lazy.shape} {arr.shape}, max diff "
+            f"{float(np.abs(lazy - arr).max()) if lazy.shape == arr.shape else float('nan'):.3e}) for {case}",
+            ("ensemble", "lazy_vs_eager", ">=2 members" if many else "1 member"),
+        )
+    # every member is the calculation of the crystal rotated by that member's angles
+    col = {tuple(int(v) for v in h): j for j, h in enumerate(hkl)}
+    for idx in np.ndindex(*exp_shape):
+        single = []
+        for ax, r, k in zip(rot[::2], rot[1::2], idx):
+            single += [ax, (np.array(r[k], float) if isinstance(r[k], list) else float(r[k]))]
+        one = bw.rotate(*single)
+        if type(one).__name__ != "BlochWaves":
+            raise Violation(f"rotate with scalars returned {type(one).__name__}", ("ensemble", "scalar_type"))
+        ref = np.asarray(one.calculate_diffraction_patterns(tl, lazy=False).array, float)
+        cols = [col.get(tuple(int(v) for v in h), -1) for h in np.asarray(one.hkl)]
+        if min(cols) < 0:
+            raise Violation(f"member {idx} retains a beam that is not in the ensemble's beam list for {case}", ("ensemble", "beam_list"))
+        member = arr[idx]
+        rest = np.delete(member, cols, axis=-1)
+        if rest.size and float(np.abs(rest).max()) > 0:
+            # a beam within rounding of the sg_max boundary may be selected differently
+            ctx.skip()
+            continue
+        if not float(np.abs(member[:, cols] - ref).max()) <= 1e-6:  # the ensemble array is float32
+            raise Violation(
+                f"ensemble member {idx} differs from the separately rotated crystal by {float(np.abs(member[:, cols] - ref).max()):.3e} for {case}",
+                ("ensemble", "member_vs_scalar"),
+            )
